@@ -977,7 +977,7 @@ impl Engine for AllocEngine {
         if self.prop == "C16" { 4_000 } else { 6_000 }
     }
     fn thorough_cases(&self) -> usize {
-        60_000
+        40_000
     }
     fn run(&self, case: &Self::Case) -> Outcome {
         crate::sim::install_panic_hook();
